@@ -46,6 +46,10 @@ func scalars(r *big.Int, rng *gen.Rng, nRand int, thorough bool, extraLambdaSqua
 	pm(new(big.Int).Rsh(r, 1), "(r-1)/2")
 	n := r.BitLen()
 	ks := []int{63, 64, 65, 127, 128, 129, n/2 - 1, n / 2, n/2 + 1, n - 1, n, n + 1, 255, 256, 257, 300, 1000, 4096}
+	// lengths around the number of words of a reduced scalar and up to one word more: routines that index the words of
+	// the scalar clamp an index there
+	W := 64 * ((n + 63) / 64)
+	ks = append(ks, W-1, W, W+1, W+32, W+63, W+64, W+65)
 	for _, k := range ks {
 		if k <= 0 {
 			continue
@@ -185,6 +189,10 @@ func runGroup(c *mon.Ctx, g *groups.Group) {
 					if c.Guard(key+"/panic/"+s.cls, desc, func() { out = op.F(in, []*big.Int{s.v}) }) {
 						continue
 					}
+					if out.Sys == "note" {
+						c.Fail(key+"/returned-pointer-is-not-the-receiver", "%s: %s", desc(), out.Note)
+						continue
+					}
 					c.Check(op.Name, key+"/scalar-modified", s.v.Cmp(keep) == 0, desc)
 					got := g.Pt(out)
 					c.Check(op.Name, key+"/mismatch/"+p.cls+"/"+s.cls, C.Eq(got, exp[pi][si]), func() string {
@@ -196,7 +204,17 @@ func runGroup(c *mon.Ctx, g *groups.Group) {
 		case "jsmul", "jsmulbase":
 			// subset of scalars for the S x S grid
 			var sub []int
+			W := 64 * ((g.R.BitLen() + 63) / 64)
+			wordCls := map[string]bool{}
+			for _, k := range []int{W, W + 1, W + 32, W + 63, W + 64} {
+				wordCls[fmt.Sprintf("2^%d", k)] = true
+				wordCls[fmt.Sprintf("-2^%d-1", k)] = true
+			}
 			for si, s := range S {
+				if wordCls[s.cls] { // lengths up to one word beyond a reduced scalar
+					sub = append(sub, si)
+					continue
+				}
 				switch s.cls {
 				case "small", "-small", "r-1", "-r-1", "r", "r+1", "2^64", "-2^64", "2^255", "2^256", "-2^256", "2^257", "2^1000", "-2^4096-1", "2^4096":
 					sub = append(sub, si)
@@ -241,6 +259,10 @@ func runGroup(c *mon.Ctx, g *groups.Group) {
 						big2 = ">limbs"
 					}
 					if c.Guard(key+"/panic/s1"+big1+"/s2"+big2, desc, func() { out = op.F(in, []*big.Int{s1.v, s2.v}) }) {
+						continue
+					}
+					if out.Sys == "note" {
+						c.Fail(key+"/returned-pointer-is-not-the-receiver", "%s: %s", desc(), out.Note)
 						continue
 					}
 					got := g.Pt(out)
@@ -384,6 +406,10 @@ func runTE(c *mon.Ctx, g *te.Curve) {
 				var out te.Rep
 				c.Current(key + " " + s.cls)
 				if c.Guard(key+"/panic/"+s.cls, desc, func() { out = op.F(in, []*big.Int{s.v}) }) {
+					continue
+				}
+				if out.Sys == "note" {
+					c.Fail(key+"/returned-pointer-is-not-the-receiver", "%s: %s", desc(), out.Note)
 					continue
 				}
 				c.Check(op.Name, key+"/scalar-modified", s.v.Cmp(keep) == 0, desc)
